@@ -13,13 +13,13 @@ COQ_DIR = "C03"
 EXTRA_COQ_DIRS = ["LLP"]
 RUN_MOD = "C03.Run"
 MODEL_TARGETS = ["C03/Run.vo"]
-PROOF_TARGETS = ["C03/Props.vo"]
+PROOF_TARGETS = ["C03/LemmasRC.vo", "C03/LemmasParse.vo", "C03/LemmasTerm.vo", "C03/LemmasInst.vo", "C03/LemmasNull.vo"]
 PROPS = ["C03/Props.v"]
 ALLOWED_AXIOMS = []
 IMPL_TIMEOUT = 30.0        # whole case (a batch of up to SWEEP_CHUNK grammars); parses have their own budget below
-PARSE_BUDGET = 0.5         # seconds for one parse of a <= 3 token input of a swept grammar (normal: < 1 ms)
-PARSE_BUDGET_FULL = 2.0    # seconds for one parse of a random larger grammar (normal: < 10 ms)
-CONFIRM_BUDGET = 3.0       # a parse that blew its budget is run once more with this budget before it counts as Hang
+PARSE_BUDGET = 0.4         # seconds for one parse of a <= 3 token input of a swept grammar (normal: < 1 ms)
+PARSE_BUDGET_FULL = 1.0    # seconds for one parse of a random larger grammar (normal: < 10 ms)
+CONFIRM_BUDGET = 1.5       # a parse that blew its budget is run once more with this budget before it counts as Hang
 MAX_HANGS = 2              # per case: after that many confirmed hangs the remaining parses are not run
 COQ_SHARD = 24
 SWEEP_CHUNK = 20000
@@ -194,14 +194,14 @@ def gen_cases(rng, tier):
             for lo in range(0, cls.size, SWEEP_CHUNK):
                 cases.append({"k": "sweep", "cls": cname, "lo": lo, "hi": min(cls.size, lo + SWEEP_CHUNK)})
     else:
-        for cname, n_chunks, per in (("2x2", 4, 2500), ("3x1", 12, 2500)):
+        for cname, n_chunks, per in (("2x2", 6, 5000), ("3x1", 20, 5000)):
             cls = CLASSES[cname]
             for _ in range(n_chunks):
                 cases.append({"k": "sweep", "cls": cname, "idx": sorted(rng.randrange(cls.size) for _ in range(per))})
     # (2) random larger grammars
-    for _ in range(6000 if big else 260):
+    for _ in range(6000 if big else 500):
         cases.append(_full_case(rng, gen_hidden(rng), 8))
-    for _ in range(2000 if big else 80):
+    for _ in range(2000 if big else 150):
         cases.append(_full_case(rng, L.gen_grammar(rng, allow_leftrec=0.25), 8))
     return cases
 
@@ -332,8 +332,8 @@ def coq_case(case, obs):
         idxs = list(_chunk_indices(case))
         items = []
         for pos in _model_sample(case):
-            prods, _start, smart = cls.grammar(idxs[pos])
-            items.append(f"({_coq_ug(prods)}, {SX.cbool(smart)})")
+            prods, start, smart = cls.grammar(idxs[pos])
+            items.append(f"({_coq_ug(prods)}, {SX.cbool(smart)}, {L.coq_sym(start)})")
         return f"Ctors {SX.clist(L.coq_sym(t) for t in cls.terms)} {SX.clist(items)}"
     return L.coq_case(case, obs)
 
@@ -344,7 +344,14 @@ _OUT_CODE = {".": 0, "R": SX.ERR_CODES["GrammarIsRecursive"], "E": SX.ERR_OTHER}
 def expected_sx(case, obs):
     if case["k"] == "sweep":
         return SX.dumps([_OUT_CODE[obs["out"][pos]] for pos in _model_sample(case)])
-    return L.expected_sx(case, obs)
+    # the third field is the model's evaluation of the theorems' hypotheses (part1_okb) on the factorized
+    # grammar: expected to hold on every generated grammar
+    if obs["ctor"][0] == "err":
+        return SX.dumps(SX.err(obs["ctor"][1]) + [True])
+    res = []
+    for r in obs["res"]:
+        res.append(SX.ok(L.tree_sx(r[1])) if r[0] == "ok" else SX.err(r[1]))
+    return SX.dumps([0, obs["amb"], True, res])
 
 
 # ------------------------------------------------------------------ oracle (the statement, independently of the model)
